@@ -52,7 +52,7 @@ theorem entry_toMat {r c : Nat} (e : List Rat) {i j : Nat} (hi : i < r) (hj : j 
   unfold toMat; rw [entry_build_lt _ hi hj]
 
 theorem toMat_rows (r c : Nat) (e : List Rat) : ∀ i, i < r → ((toMat r c e).getD i []).length = c :=
-  fun i hi => build_row_length _ _ _ _ hi
+  fun _ hi => build_row_length _ _ _ _ hi
 
 /-! ### products and exchanges as `Matrix` operations -/
 
